@@ -76,6 +76,8 @@ def run_case(case: dict) -> dict:
                 par = 1
                 shuffle = max(shuffle, 2)
                 iface = "conc" if (fmt == "tfrec" or rng.random() < 0.7) else "tfds"   # the lazy-pool paths
+                if iface == "tfds" and process == "none-some":
+                    process = False       # tf.data.map cannot return None
                 perturb = {"stall": 2.6}
                 obs["stalled_consumer_passes"] += 1
             label = f"{iface} split={split} shuffle={shuffle} par={par} process={process} {perturb}"
